@@ -61,6 +61,10 @@ def gen_programs(ctx):
         P(n, 2, ["q%d,3000" % (3 * n), "f1"])                             # queued and in progress at the stop
         P(n, 1, ["w", "I", "w", "f1"])                                    # idle waits return at once
         P(n, 1, ["q%d,500" % (n + 1), "f0"])                              # stop without draining
+    # "for every queue length": more requests queued than the listen backlog (256) / than any small constant, behind busy workers
+    for n, q in ((1, 300), (2, 600), (2, 257)) + (((4, 2000), (8, 1025)) if ctx.thorough else ()):
+        P(n, 0, ["q%d,2000" % n, "B", "q%d,0" % q, "w", "f1"])              # workers busy, long queue builds up, wait, drain
+        P(n, 2, ["q%d,1000" % n, "B", "q%d,0" % q, "f1"])                   # long queue at the stop
     nrand = 6000 if ctx.thorough else 600
     for _ in range(nrand):
         n = rng.choice([1, 1, 2, 2, 3, 4, 5, 8])
@@ -474,10 +478,34 @@ def stop_phase(ctx):
             ctx.notes.append("stop phase (%s) inconclusive in 3 attempts (client could not keep inside the I/O limits on this machine)" % mode)
 
 
+def rude_phase(ctx):
+    """'each such client receives its full reply' for every interleaving of acceptor and workers: with clients around that break
+    their own connections (the daemon's send fails and the connection is torn down while the acceptor hands out descriptors)"""
+    import rig, conc
+    for san in ("thread", "address"):
+        exe, err = rig.build_daemon(ctx, name="munged-rude-" + san, san=san)
+        if exe is None:
+            continue
+        pp, rep, n = conc.rude_polite_phase(ctx, exe, seconds=10.0 if ctx.thorough else 3.0)
+        ctx.cov.setdefault("input_distribution", {})["rude-polite-" + san] = n
+        ctx.count(("rude-polite", san, n))
+        ctx.log("rude/polite (%s): %d transactions, %d problems" % (san, n, len(pp)))
+        for pb in pp[:1]:
+            ctx.violation(pb["why"] + " while other clients hung up before their replies", pb)
+        if rep.strip() and ("data race" in rep or "ERROR" in rep):
+            import re
+            loc = re.findall(r"#\d+ (\w+) (/[^\s:]+/src/[^\s:]+):(\d+)", rep)[:4]
+            ctx.violation("%s reported by -fsanitize=%s while clients hang up before their replies: %s"
+                          % ("data race" if "data race" in rep else "sanitizer error", san, loc), {"report": rep[:4000]})
+        if pp:
+            break
+
+
 def run(ctx):
     _run_own(ctx)
     if not ctx.replay:
         stop_phase(ctx)
+        rude_phase(ctx)
 
 
 def _run_own(ctx):
